@@ -30,6 +30,8 @@ ENTRY = dict(
                 "the statement side (Spec/C09 describe/demanded) judges a reply with the network DECODER, tied to the encoder by C03.net_roundtrip) "
                 "+ correspondence (reply frames on the transport compared byte for byte with the model's)",
             "unfinished = 0 at quiescence / shutdown can complete": "theorem (balanced_at_quiescence for the read queue; C09Producer.write_balance and shutdown_can_complete for the write queue: both counters balanced after any frame sequence and any write faults; frames still queued for writing with no producer are finding F1/C12, not claimed) + correspondence (shutdown() completes under the virtual loop)",
+            "nothing is lost between the reader and the consumers, however many frames pile up while the consumers are held up":
+                "theorem (conservation: every arrival is queued; C09Producer.enqueued_exactly_delivered) + correspondence (bursts of 35..2200 frames in one chunk during the first device creation; 40 / 150-frame streams into the read queue with no consumer)",
             "no consumer dies, including more raising frames than consumers": "theorem (no_consumer_dies, never_stalls)",
             "the model distinguishes contained from uncontained consumers": "theorem (uncontained_counterexample)",
             "which payloads make handling raise": "correspondence (input bit from the implementation's decoder; C05)",
